@@ -68,6 +68,7 @@ class Registry:
         self.assumptions = set()
         self.externals = {}
         self.async_units = set()
+        self.heap_invariants = []  # (name, fn(state) -> Bool): class invariants assumed of the initial heap of every unit
 
     # ---- spec functions ------------------------------------------------------------------------------
     def specfun(self, name, sorts, defn=None):
